@@ -32,7 +32,7 @@ theorem missing_becomes_error_entry (w : World) (o : Opts) (r : Req) (st : St)
     (stepPending w o r st).slot r.spec =
       some (.err { kind := .missing, spec := r.spec, referrer := r.range }) := by
   have ht : tryLoad w o r = .err { kind := .missing, spec := r.spec, referrer := r.range } := by
-    simp [tryLoad, tryLoad', World.answer, h]
+    simp [tryLoad, tryLoad', World.answer, World.respFor, h]
   simp only [stepPending, ht, applyOutcome, checkSpecifier_eq, slot_setSlot, if_true]
 
 /-- … a loader error … -/
@@ -41,7 +41,7 @@ theorem loader_error_becomes_error_entry (w : World) (o : Opts) (r : Req) (st : 
     (stepPending w o r st).slot r.spec =
       some (.err { kind := .loader, spec := r.spec, referrer := r.range }) := by
   have ht : tryLoad w o r = .err { kind := .loader, spec := r.spec, referrer := r.range } := by
-    simp [tryLoad, tryLoad', World.answer, h]
+    simp [tryLoad, tryLoad', World.answer, World.respFor, h]
   simp only [stepPending, ht, applyOutcome, checkSpecifier_eq, slot_setSlot, if_true]
 
 /-- … a redirect beyond the limit, or back to the requested specifier itself (fixed finding F13) -/
@@ -52,7 +52,7 @@ theorem redirect_loop_becomes_error_entry (w : World) (o : Opts) (r : Req) (st :
       some (.err { kind := .tooManyRedirects, spec := r.spec, referrer := r.range }) := by
   have ht : tryLoad w o r = .err { kind := .tooManyRedirects, spec := r.spec, referrer := r.range } := by
     unfold tryLoad tryLoad'
-    simp only [World.answer, h, hc, Option.isSome_none, Bool.false_eq_true, if_false]
+    simp only [World.answer, World.respFor, h, hc, Option.isSome_none, Bool.false_eq_true, if_false]
     have : (decide (r.count ≥ w.maxRedirects) || to == r.spec) = true := by
       rcases hl with hl | hl
       · simp [hl]
@@ -67,7 +67,7 @@ theorem bad_content_becomes_error_entry (w : World) (o : Opts) (r : Req) (st : S
     (hc : classify o (w.contentOf r.spec) r.attr r.range r.spRef r.isRoot r.inDyn = .err k ref) :
     (stepPending w o r st).slot f = some (.err { kind := k, spec := f, referrer := ref }) := by
   have ht : tryLoad w o r = .err { kind := k, spec := f, referrer := ref } := by
-    simp [tryLoad, tryLoad', World.answer, moduleOutcome, h, ha, hc, hk]
+    simp [tryLoad, tryLoad', World.answer, World.respFor, moduleOutcome, h, ha, hc, hk]
   simp only [stepPending, ht, applyOutcome, slot_setSlot, if_true]
 
 /-- an error never leaves the requested specifier pending -/
